@@ -1120,6 +1120,71 @@ def base_kwarg_branches(rng, tier, specs):
   return [((5,),), ((6, 6, 2),), ((3, 4),), ((6, 4),)], out
 
 
+# (switch argument, value that switches the weight OFF, quantizer slot of that weight)
+ABSENT_WEIGHT_SWITCHES = [("use_bias", False, "bias_quantizer"), ("center", False, "beta_quantizer"),
+                          ("scale", False, "gamma_quantizer")]
+
+
+def absent_weight_branches(rng, tier, specs):
+  """a quantizer slot that is SET while the switch that creates its weight is OFF: every class of the
+  table that has `use_bias` and `bias_quantizer` (the batch-norm folding classes — which quantize the
+  bias folded from the batch-norm statistics with it although the convolution has no bias —, the
+  recurrent classes and cells included) built with use_bias=False and a bias quantizer, and
+  QBatchNormalization with center=False + beta_quantizer / scale=False + gamma_quantizer; the quantizer
+  as object and as string, both folding modes.  Judged like every packed stream: predict bytes and
+  get_quantizers() strings of every layer after the three routes (the layer still REPORTS the
+  quantizer of the absent weight), the per-layer ties get_config / reported / reload-attrs."""
+  import tensorflow as tf
+  import qkeras as Q
+  out = []
+  forms = [("object", lambda: Q.quantized_bits(4, 1, 1, alpha=1.0)), ("string", lambda: "quantized_bits(5,1,1)")]
+  fi = int(rng.integers(0, 2))
+  pairs = 0
+  for cls_name in sorted(specs):
+    if cls_name in EXCLUDED or (cls_name.endswith("Cell") and tier == "quick"):
+      continue
+    pnames = [p["name"] for p in specs[cls_name]["params"]]
+    for sw, off, slot in ABSENT_WEIGHT_SWITCHES:
+      if sw not in pnames or slot not in pnames:
+        continue
+      folded = cls_name.endswith("Batchnorm")
+      variants = [{}]
+      if folded:
+        variants = [{"folding_mode": "ema_stats_folding"}, {"folding_mode": "batch_stats_folding"}]
+      pairs += 1
+      for vi, extra in enumerate(variants):
+        # quick: one form per (class, switch), alternating with the pair and the seed; the folding classes
+        # (where the slot is USED) get one form per folding mode, i.e. both
+        for k, (flab, mk) in enumerate(forms):
+          if tier == "quick" and k != (fi + pairs + vi) % 2:
+            continue
+          kw = dict(extra)
+          kw[sw] = off
+          wrap = (lambda l: tf.keras.layers.RNN(l)) if cls_name.endswith("Cell") else (lambda l: l)
+          opt = "%s=%r+%s=<%s>%s" % (sw, off, slot, flab, "".join("+%s=%s" % kv for kv in sorted(extra.items())))
+          def make(name, c=cls_name, kw=kw, slot=slot, mk=mk, wrap=wrap):
+            return wrap(base_kwarg_layer(c, specs, dict(kw, **{slot: mk()}), name))
+          out.append(dict(label="%s(%s) [quantizer of a weight the layer does not create]" % (cls_name, opt),
+                          cls=cls_name, inp=BASE_KW_INPUT.get(cls_name, 1), make=make,
+                          key={"layer": cls_name, "qclass": "absent-weight", "option": opt}))
+  # the same packed model also carries: every class with the read literal `implementation` at its
+  # non-default legal value 2 (from_config has a legacy hook on that key: 0 -> 1), built WITHOUT quantizers
+  # and 16 units — with float weights the two implementations differ in the last bit (association order),
+  # with quantized weights they do not, so only such a layer shows a lost `implementation` in its predictions
+  for cls_name in sorted(specs):
+    pnames = [p["name"] for p in specs[cls_name]["params"]]
+    if cls_name in EXCLUDED or "implementation" not in pnames or (cls_name.endswith("Cell") and tier == "quick"):
+      continue
+    def make_impl(name, c=cls_name):
+      if c.endswith("Cell"):
+        return tf.keras.layers.RNN(getattr(Q, c)(16, implementation=2), return_sequences=True, name=name)
+      return getattr(Q, c)(16, implementation=2, return_sequences=True, name=name)
+    out.append(dict(label="%s(16, implementation=2, return_sequences=True) [no quantizers: float arithmetic]" % cls_name,
+                    cls=cls_name, inp=2, make=make_impl,
+                    key={"layer": cls_name, "qclass": "none", "option": "implementation=2"}))
+  return [((5,),), ((6, 6, 2),), ((3, 4),), ((6, 4),)], out
+
+
 def base_kwarg_layer_ties(run, specs):
   """layer level, every (class, base-class argument) pair of the model's table (read or not, written by
   get_config or not): build with a non-default value, `cls.from_config(get_config())`; is the attribute
@@ -1686,8 +1751,11 @@ def run(run: core.Run, tier: str):
   # kind and the seed (22 instead of 44 models: the run time went to the shared-roles and sigmoid-mode streams)
   # (round U13: every third kind is left out per seed, rotating — each kind occurs for 2 of 3 consecutive
   # seeds — and 3 DAG models instead of 4: the run time went to the base-kwargs and user-objects streams)
-  clean_reps = lambda ki: range(n_clean) if tier != "quick" else ([] if (ki + run.seed) % 3 == 2 else [(ki + run.seed) % 2])
-  n_dag = {"quick": 3, "thorough": 16}.get(tier, 3)
+  # (round W13: every second kind per seed — each kind occurs at every other seed, its first / second (bias-less)
+  # draw alternating from one occurrence to the next — and 2 DAG models instead of 3: the run time went to the
+  # absent-weight stream, which builds every class with a bias switch bias-less on every seed)
+  clean_reps = lambda ki: range(n_clean) if tier != "quick" else ([] if (ki + run.seed) % 2 == 1 else [((ki + run.seed) // 2) % 2])
+  n_dag = {"quick": 2, "thorough": 16}.get(tier, 2)
   pending = []   # (meta, driver line) — the driver is called once at the end
 
   def real_raises(what, key_base, label, path, cls, e):
@@ -2066,7 +2134,8 @@ def run(run: core.Run, tier: str):
                       ("alpha", lambda r, t: default_alpha_branches(r, t, trainable_classes)),
                       ("shared", lambda r, t: shared_role_branches(r, t, specs, qparams, trainable_classes)),
                       ("basekw", lambda r, t: base_kwarg_branches(r, t, specs)),
-                      ("keras", keras_names)):
+                      ("keras", keras_names),
+                      ("absent", lambda r, t: absent_weight_branches(r, t, specs))):
       in_shapes, branches = fn(rng, tier)
       t0 = _time.time()
       packed(group, in_shapes, branches)
